@@ -1,0 +1,5 @@
+//go:build !verif
+
+package pdf
+
+func verifYield(string) {}
